@@ -152,14 +152,13 @@ end
 
 def passClass (pass : String) (t : Node) : String :=
   if pass == "opt" then
-    (if optPushUnsafe t then "pushdown_right_past_join_key"
-     else if emptyFirstBranch t then "empty_first_union_branch_width"
+    (if emptyFirstBranch t then "empty_first_union_branch_width"
      else "unclassified")
   else if pass == "bs" then
     (if analyze t == .boolean && hasAggregate t then "aggregate_under_boolean_annotation" else "unclassified")
   else if pass == "jp" then
-    (if topIsUnion t && hasJoins t then "union_root_under_join_planning"
-     else if repeatedVarScan t then "repeated_var_in_scan_under_join_planning"
+    (if repeatedVarScan t then "repeated_var_in_scan_under_join_planning"
+     else if topIsUnion t && hasJoins t then "union_root_under_join_planning"
      else "unclassified")
   else "unclassified"
 
